@@ -221,6 +221,12 @@ def is_z3(v):
     return isinstance(v, z3.ExprRef)
 
 
+def sel(arr, i):
+    """array read; reads of lambda arrays are beta-reduced so that no binder is left in ground terms"""
+    r = z3.Select(arr, i)
+    return z3.simplify(r) if z3.is_quantifier(arr) else r
+
+
 def toz(v):
     if isinstance(v, bool):
         return z3.BoolVal(v)
@@ -1035,7 +1041,7 @@ class Engine:
         elif isinstance(it, VPairs):
             niter = it.length
             pf, ps = it.first, it.second
-            elem = lambda i: VTuple([z3.Select(pf, i), z3.Select(ps, i)], 'tuple')
+            elem = lambda i: VTuple([sel(pf, i), sel(ps, i)], 'tuple')
         elif isinstance(it, VTerms):
             niter = specs.tlen(it.term)
             t0 = it.term
@@ -1075,6 +1081,8 @@ class Engine:
         self.assume(i == niter)
         # python leaves the target at the last element; model: keep symbolic elem(niter-1) when niter>0
         self.assign(s.target, elem(i - 1), env)
+        for h in spec.get('exit_hints', []):       # ghost lemma steps at loop exit: proved (auxiliary), then available
+            self.oblige('hint', h, self.spec_eval(h, env), s.lineno, decisive=False)
         self.exec_block(s.orelse, env)
 
     def eval_iter(self, e, env):
@@ -1384,8 +1392,8 @@ class Engine:
         if isinstance(base, VArr):
             if getattr(self, 'in_spec', False):
                 i = toz(idx)
-                return z3.Select(base.arr, z3.If(i >= 0, i, base.length + i))
-            return z3.Select(base.arr, self.norm_index(idx, base.length, e))
+                return sel(base.arr, z3.If(i >= 0, i, base.length + i))
+            return sel(base.arr, self.norm_index(idx, base.length, e))
         if isinstance(base, (VSeq, VMList)):
             t = base.term
             if t.sort() == specs.ISeq:
@@ -1429,7 +1437,7 @@ class Engine:
             return '<str>'
         if isinstance(base, VPairs):
             i = toz(idx) if getattr(self, 'in_spec', False) else self.norm_index(idx, base.length, e)
-            return VTuple([z3.Select(base.first, i), z3.Select(base.second, i)], 'tuple')
+            return VTuple([sel(base.first, i), sel(base.second, i)], 'tuple')
         raise Unsupported('subscript of {!r} (line {})'.format(base, e.lineno))
 
     def slice(self, base, sl, env, node):
@@ -2016,6 +2024,7 @@ def _wrap(fn, ret=None):
 
 SPEC_FUNCS = {
     'old': sf_old, 'implies': sf_implies, 'forall': sf_forall_int, 'created': sf_created, 'final': sf_final,
+    'firsts': lambda eng, node, p: VArr(p.length, p.first),
     'imapsub': lambda eng, node, sq, A, n: VSeq(specs.imapsub(_term(sq), as_arr(A).arr, toz(n))),
     'isperm': lambda eng, node, A, n, base: specs.isperm(as_arr(A).arr, toz(n), toz(base)),
     'lam2': sf_lam2, 'card2': lambda eng, node, st: specs.card2(st.arr),
